@@ -52,6 +52,7 @@ type Exec struct {
 	Abstracted   map[string]bool
 	Inlined      map[string]bool
 	ByContract   map[string]bool
+	Dispatched   map[string]bool // interface calls resolved by closed-world dispatch
 	UserCalls    map[string]bool
 	err          error
 	maxPaths     int
